@@ -30,7 +30,7 @@ ASSUMPTIONS = [
 REQUIRED_CELLS = {
     'quick': ['op=add', 'op=sub_roundtrip', 'op=iadd', 'op=isub', 'op=sub_empty', 'op=add_empty', 'op=mul', 'op=div',
               'op=imul', 'op=idiv', 'op=neg', 'op=copy', 'op=copy_basis', 'op=backwards_r', 'op=backwards_none',
-              'op=item_to_set', 'op=set_to_item', 'op=reduce', 'mixed-basis', 'neg-operand', 'ph=1', 'ph=0'],
+              'op=item_to_set', 'op=set_to_item', 'op=item_imul', 'op=item_idiv', 'op=reduce', 'mixed-basis', 'neg-operand', 'ph=1', 'ph=0'],
     'thorough': [],
 }
 
@@ -540,7 +540,8 @@ def prop_purity(ch, ctx):
 # ---------------------------------------------------------------------------
 # reaction sets and their items
 # ---------------------------------------------------------------------------
-ITEM_OPS = ['item_to_set', 'item_to_set', 'set_to_item', 'set_to_item', 'held_item', 'slice', 'setX_all', 'reduce',
+ITEM_OPS = ['item_to_set', 'item_to_set', 'set_to_item', 'set_to_item', 'held_item', 'slice', 'setX_all', 'item_imul',
+            'item_imul', 'item_idiv', 'iter_imul', 'reduce',
             'reduce', 'item_copy', 'item_mul', 'item_add', 'item_neg', 'item_backwards', 'set_copy', 'set_copy_basis',
             'set_add']
 
@@ -577,7 +578,7 @@ def prop_items(ch, ctx):
     set_matches(Xs, 'build.set')
     i = ch.int('i', 0, n - 1)
     v = rx.draw_X(ch, 'v')
-    if op in ('item_to_set', 'set_to_item', 'held_item', 'slice', 'setX_all'):
+    if op in ('item_to_set', 'set_to_item', 'held_item', 'slice', 'setX_all', 'item_imul', 'item_idiv', 'iter_imul'):
         held = [rset[k] for k in range(n)]
         xs = list(Xs)
         if op == 'item_to_set':
@@ -589,6 +590,25 @@ def prop_items(ch, ctx):
         elif op == 'held_item':
             def f(): held[i].X = v
             xs[i] = v
+        elif op in ('item_imul', 'item_idiv', 'iter_imul'):
+            # in-place scaling of ONE item changes that item's conversion only: the whole set's X array, every
+            # sibling item and the set's behaviour on a feed are compared below
+            k = ch.choice('k', [0.5, 2.0, 0.25, 3])
+            via_held = ch.bool('imul.held')
+            if op == 'iter_imul':
+                def f():
+                    for it in rset:
+                        it *= k
+                xs = [x * k for x in xs]
+            else:
+                def f():
+                    it = held[i] if via_held else rset[i]
+                    it0 = it
+                    if op == 'item_imul': it *= k
+                    else: it /= k
+                    if it is not it0:
+                        ctx.fail(f'{op}|{region}|not-in-place', 'in-place operator on an item returned another object')
+                xs[i] = xs[i] * k if op == 'item_imul' else xs[i] * (1. / k)
         elif op == 'slice':
             lo = ch.int('lo', 0, n - 1); hi = ch.int('hi', lo + 1, n)
             j = ch.int('j', lo, hi - 1)
